@@ -5,6 +5,7 @@ package main
 // type of the tag, applies the Go operator and converts back.
 
 import (
+	"regexp"
 	"fmt"
 	"go/ast"
 	"go/constant"
@@ -29,6 +30,7 @@ func init() {
 			{"OPS-ASSIGN", 6, ruleOpsAssign},
 			{"OPS-CONVERT", 5, ruleOpsConvert},
 			{"OPS-CONST", 4, ruleOpsConst},
+			{"OPS-UNARY", 1, ruleOpsUnary},
 			{"TAB-CAST", 5, ruleTabCast},
 			{"REP-TYPEDSTORE", 9, ruleRepTypedStore},
 		},
@@ -162,11 +164,14 @@ func (c *Ctx) methodOperator(method string) (string, error) {
 }
 
 // collectOps finds binary operators applied to (something of v, something of b).
+var operandRe = regexp.MustCompile(`[(, ]b[),]`)
+
 func collectOps(t *T, ops map[string]bool) {
 	walkT(t, func(x *T) {
 		if x.Op == "bin" && len(x.Args) == 2 {
 			l, rr := x.Args[0].String(), x.Args[1].String()
-			if strings.Contains(l, "v.") && strings.Contains(rr, "b.") && x.Name != "||" && x.Name != "&&" {
+			// the count of a shift may be wrapped in a helper: shiftCount(b)
+			if strings.Contains(l, "v.") && (strings.Contains(rr, "b.") || operandRe.MatchString(rr)) && x.Name != "||" && x.Name != "&&" {
 				if strings.Contains(l, "v.t") || strings.Contains(l, ".t ") {
 					return
 				}
@@ -328,7 +333,18 @@ func ruleOpsArith(c *Ctx, r *R) {
 				} else if ty, inner, ok := convTo(nf); ok && ty == "float64" && inner.Op == "bin" && inner.Name == mop {
 					lt, lx, lok := convTo(inner.Args[0])
 					rt, rx, rok := convTo(inner.Args[1])
+					countOK, countWhy := false, ""
+					if isShift {
+						countOK, countWhy = c.shiftCountOK(inner.Args[1])
+					}
 					switch {
+					case isShift && lok && lx.String() == "v.num" && lt == g:
+						// a shift: the left operand has the tag's Go type; the count is judged on its own
+						if countOK {
+							good = tagOK
+						} else {
+							why = countWhy
+						}
 					case !lok || !rok:
 						why = "operands are not converted to a Go integer type"
 					case lx.String() != "v.num" || rx.String() != "b.num":
@@ -1004,4 +1020,67 @@ func ruleOpsConst(c *Ctx, r *R) {
 	} else {
 		r.undecided("GLOBALSET", "-", err.Error())
 	}
+}
+
+// shiftCountOK: Go never reduces a shift count to the width of the left operand and
+// rejects a negative one.  The count expression of a shift in an op method is therefore
+// acceptable only if it cannot wrap: an unsigned conversion of b.num of at least 32 bits, or a
+// helper of the module that returns such an unsigned integer (it can then clamp and check
+// the sign itself).  int8(b.num) / byte(b.num) / int32(b.num) wrap: 1 << 256 on a uint8 is 1,
+// and a count of 200 on an int8 operand is negative.
+func (c *Ctx) shiftCountOK(t *T) (bool, string) {
+	wide := map[string]bool{"uint": true, "uint32": true, "uint64": true, "uintptr": true}
+	if ty, x, ok := convTo(t); ok {
+		if x.String() == "b.num" && wide[ty] {
+			return true, ""
+		}
+		return false, "the shift count is converted to " + ty + ", which wraps: a count >= 128 on an int8 operand becomes negative (run-time panic) and 256 on a uint8 operand becomes 0 (1 << 256 is 1, Go: 0)"
+	}
+	if t.Op == "call" {
+		if fd := c.Func(t.Name); fd != nil && fd.Type.Results != nil && len(fd.Type.Results.List) == 1 {
+			if bt, ok := c.TypeOf(fd.Type.Results.List[0].Type).Underlying().(*types.Basic); ok && bt.Info()&types.IsUnsigned != 0 && (bt.Kind() == types.Uint || bt.Kind() == types.Uint32 || bt.Kind() == types.Uint64 || bt.Kind() == types.Uintptr) {
+				return true, ""
+			}
+		}
+		return false, "the shift count comes from " + t.Name + ", which does not return a wide unsigned integer"
+	}
+	return false, "the shift count is not an unsigned conversion of b.num"
+}
+
+// OPS-UNARY: the complement of an untyped constant is an untyped constant (so that
+// `x &^ 0x0F`, parsed as x & (^0x0F), keeps x's type).  The BITCOMPLEMENT handler's
+// default-typing path (assign(TypeNil), which turns an untyped value into int32) must be
+// reached only for typed operands: there is a path for the untyped tag that pushes an
+// untyped result.
+func ruleOpsUnary(c *Ctx, r *R) {
+	m, err := newHndMachine(c)
+	if err != nil {
+		r.undecided("exec", "-", err.Error())
+		return
+	}
+	sc := m.sw.ByLabel["codeBitComplement"]
+	if sc == nil {
+		r.undecided("BITCOMPLEMENT", "-", "no handler")
+		return
+	}
+	ps, err := m.single("codeBitComplement")
+	if err != nil {
+		r.undecided("BITCOMPLEMENT", c.Pos(sc.Clause), err.Error())
+		return
+	}
+	untypedPath, typedGuarded := false, true
+	for _, p := range ps {
+		cs := strings.Join(p.Conds, " && ")
+		push := ""
+		for _, t := range p.Push {
+			push += t.String() + ";"
+		}
+		if strings.Contains(cs, "Top1.t == untypedInt") && strings.HasPrefix(push, "newUntypedInt(") {
+			untypedPath = true
+		}
+		if strings.Contains(push, "Value.assign(Top1, TypeNil)") && !strings.Contains(cs, "Top1.t != untypedInt") {
+			typedGuarded = false
+		}
+	}
+	r.check(untypedPath && typedGuarded, "BITCOMPLEMENT untyped", c.Pos(sc.Clause), "^ of an untyped constant stays untyped", "the BITCOMPLEMENT handler gives an untyped operand the default type int32 before complementing: `var f uint8 = 0xFF; f &^ 0x0F` is 240:int32 and no longer wraps (Go: uint8), `u &^ 1` on a uint32 above MaxInt32 is garbage")
 }
